@@ -605,3 +605,11 @@ def extra(ev, tier, seed):
     ev.rule = "MC_Conn family 'beyond' replayed on Token::run; differences are drift, never violations"
     for B in (24, 32):
         conn_model(ev, "EXTRA", seed, "beyond-b%d" % B, B, ["beyond"], maxcuts=2, invariants="OneHandlerPerRequest EpilogueShape Emit")
+    # a runner and its clone: one shared limit, separate stop events and wait-groups ("must be shut down separately")
+    for limit in (1, 2):
+        cfg = ("SPECIFICATION Spec\nCONSTANTS\n  MaxConns = %d\n  NF = 4\nVIEW View\nACTION_CONSTRAINT Emit\n"
+               "INVARIANTS SharedLimit ShutdownOwnTokensOnly ShutdownNotHeldByOther StopOwnTokensOnly StopReachesAll QueueSane NoStrandedSlot\n"
+               "CHECK_DEADLOCK FALSE\n" % limit)
+        stats, h = cl.run_tlc_piped("EXTRA-server-%d" % limit, "MC_Server", cfg, ["runner-replay", "--prop", "EXTRA", "--which", "server"], workers=4)
+        ev.add_tlc("MC_Server MaxConns=%d NF=4" % limit, stats)
+        ev.add_harness("runner + clone histories replayed on Runner / Token / Token::run (limit %d)" % limit, h)
